@@ -438,7 +438,7 @@ func enumSeqs(n, maxLen int, f func(seq []int) bool) {
 }
 
 func c03Jobs(tier string) []*SeqJob {
-	L := tierInt(tier, 4, 5)
+	L := tierInt(tier, 4, 6)
 	va, da := c03ValueAlphabet(), c03DurationAlphabet()
 	runValue := func(path histPath, idx []int) (string, string, int) {
 		spec := make([]float64, len(idx))
